@@ -841,6 +841,8 @@ def _index_axiom(mutable):
         if mutable and bl[0] == "ref":
             # writes through the sub-slice modify the base object: remember the alias
             st.write_leaf(root, (("$base",),), bl)
+        if bl[0] == "ref" and kind in ("to", "full"):
+            st.write_leaf(root, (("$base0",),), bl)      # prefix of the base: element i of the slice is element i of the base
         return call.ret_leaf(("ref", root, ()))
     return ax
 
@@ -896,6 +898,16 @@ def ax_slice_contains(call):
         v = call.interp.decide(call.st, ("eq", ("int", 0), n))
         if v is True:
             return call.ret_leaf(("int", 0))
+    # a short prefix of an array of field-less enum values that are all known: decide membership
+    l = tree_leaf(call.args[0])
+    if n[0] == "int" and 0 < n[1] <= 8 and l[0] == "ref":
+        base = call.st.mem.get(l[1], {}).get((("$base0",),))
+        if base and base[0] == "ref":
+            from .interp import variant_at
+            needle = variant_at(call.deref(call.args[1]))
+            elems = [variant_at(call.st.read_tree(base[1], base[2] + (("f", "#%d" % i),))) for i in range(n[1])]
+            if needle and all(elems):
+                return call.ret_leaf(("int", 1 if needle in elems else 0))
     return call.ret_app("<impl [T]>::contains")
 
 
